@@ -457,7 +457,10 @@ def gradient_translation(H):
     defaults = {"x1": 0, "y1": 0, "x2": 100, "y2": 0, "cx": 50, "cy": 50, "r": 50, "fr": 0}
     vals, attrib = {}, {"id": "g", "gradientUnits": "userSpaceOnUse", "spreadMethod": "reflect"}
     for n in names:
-        attrib[n], vals[n] = numstr(H, n)
+        if n in ("r", "fr"):
+            attrib[n], vals[n] = {"r": ("7.5", 7.5), "fr": ("1.25", 1.25)}[n]  # radii: concrete (they are not touched at all)
+        else:
+            attrib[n], vals[n] = numstr(H, n)
     mtok, M = _tok(H, "m")
     attrib["gradientTransform"] = mtok
     stop = _el("stop", {"offset": "0"})
